@@ -4,6 +4,7 @@ import (
 	"fmt"
 	"sort"
 	"syscall"
+	"unsafe"
 
 	"github.com/criyle/go-sandbox/cmd/runprog/config"
 	"github.com/criyle/go-sandbox/pkg/seccomp"
@@ -154,7 +155,7 @@ func init() {
 			Level: "exploration",
 			Rule: "family 0: every assignment {absent, allow, trace} of the alphabet Σ × every default action × both list orders; each built filter is interpreted (kernel cBPF semantics) on " +
 				"native arch × nr-set, on every other arch tag × a reduced nr-set, and with three argument/ip patterns; family 1: long policies (whole table allowed / traced / alternating / runprog configurations), " +
-				"forcing the long-jump paths; family 2: malformed policies (duplicate, unknown, overlapping names) must be refused, never compiled; family 3 (thorough): full 2^32 nr sweeps and full 2^32 arch sweeps. " +
+				"forcing the long-jump paths; family 2: malformed policies (duplicate, unknown, overlapping names) must be refused, never compiled; family 3: histories of 2..3 Builds over a four-policy alphabet of different program lengths, every filter re-interpreted (and compared with a snapshot) after all later Builds — a filter belongs to its policy for as long as it is held; family 4 (thorough): full 2^32 nr sweeps and full 2^32 arch sweeps. " +
 				"non-trivial: at least one name listed; distinct = hash of (policy, class vector over a fixed probe set)",
 			Bound: map[string]any{"sigma": sigma, "defaults": defaults, "nr_points": len(nrs), "arch_tags": len(arches),
 				"zone_note": "nr >= 2^31 with bit 30 clear: refusal or the default action accepted (the dependency refuses everything >= 2^30)"},
@@ -163,9 +164,9 @@ func init() {
 			SplitDepth: 4,
 		}
 		spec.Body = func(x *mc.X) {
-			nf := 3
+			nf := 4
 			if tier == "thorough" {
-				nf = 4
+				nf = 5
 			}
 			switch x.Choose(nf, "family") {
 			case 0:
@@ -190,6 +191,8 @@ func init() {
 			case 2:
 				c01malformed(x, sigma)
 			case 3:
+				c01history(x, info, allNames, nrs, arches, tier)
+			case 4:
 				c01sweep(x, info, sigma, allNames, sweepChunks)
 			}
 		}
@@ -245,10 +248,18 @@ func c01evaluate(x *mc.X, info *arch.Info, p c01policy, nrs, arches []uint32, no
 		x.Outcome("build-error")
 		return
 	}
-	prog := []syscall.SockFilter(f)
+	c01checkFilter(x, info, p, f, nrs, arches, "")
+}
+
+// c01checkFilter interprets an already built filter against the policy it was built for; tag prefixes the failure keys
+// (the history family evaluates a filter after later builds).
+func c01checkFilter(x *mc.X, info *arch.Info, p c01policy, f seccomp.Filter, nrs, arches []uint32, tag string) {
+	// what the kernel is handed is SockFprog(): evaluate exactly the Len instructions found at Filter
+	fp := f.SockFprog()
+	prog := unsafe.Slice((*syscall.SockFilter)(unsafe.Pointer(fp.Filter)), int(fp.Len))
 	shape, err := cbpf.Check(prog)
 	if err != nil {
-		x.Failf("C01/not-loadable", "filter would be rejected by the kernel: %v", err)
+		x.Failf("C01/"+tag+"not-loadable", "filter would be rejected by the kernel: %v", err)
 		x.Outcome("not-loadable")
 		return
 	}
@@ -286,7 +297,7 @@ func c01evaluate(x *mc.X, info *arch.Info, p c01policy, nrs, arches []uint32, no
 				default:
 					zone = "unlisted"
 				}
-				x.Failf(fmt.Sprintf("C01/%s-exp-%s-got-%s", zone, exp, got),
+				x.Failf(fmt.Sprintf("C01/%s%s-exp-%s-got-%s", tag, zone, exp, got),
 					"policy allow=%v trace=%v default=%d: arch=%#x nr=%#x → %s, expected %s", p.allow, p.trace, p.def, a, nr, got, exp)
 			}
 		}
@@ -512,4 +523,62 @@ func c01sweep(x *mc.X, info *arch.Info, sigma, all []string, chunks int) {
 	x.Count(int64(size) * int64(len(nrs)))
 	x.Distinct(fmt.Sprint("archsweep", pi, c, classes))
 	x.Outcome(fmt.Sprint("sweep-arch:", len(classes)))
+}
+
+// c01history: every sequence of 2..3 Builds over an alphabet of policies whose programs differ in length; after the
+// last Build every earlier filter must still be instruction-for-instruction what it was when returned and must still
+// implement its own policy.
+func c01history(x *mc.X, info *arch.Info, all []string, nrs, arches []uint32, tier string) {
+	alpha := []c01policy{
+		{allow: append([]string{}, all...), def: libseccomp.ActionKill},                           // longest program
+		{allow: []string{"read", "write"}, trace: []string{"execve"}, def: libseccomp.ActionKill}, // short, strict
+		{def: libseccomp.ActionAllow}, // shortest, permissive
+		{allow: []string{"read"}, trace: []string{"open", "openat", "fork"}, def: libseccomp.ActionTrace}, // medium
+	}
+	maxLen := 3
+	n := 2 + x.Choose(maxLen-1, "builds")
+	var seq []int
+	for i := 0; i < n; i++ {
+		seq = append(seq, x.Choose(len(alpha), fmt.Sprintf("policy%d", i)))
+	}
+	x.Note("history", fmt.Sprint("builds of alphabet policies ", seq))
+	if x.Dry() {
+		return
+	}
+	type built struct {
+		f    seccomp.Filter
+		snap []syscall.SockFilter
+	}
+	var bs []built
+	for _, pi := range seq {
+		f, ok := c01build(x, alpha[pi])
+		if !ok {
+			x.Outcome("build-error")
+			return
+		}
+		bs = append(bs, built{f, append([]syscall.SockFilter{}, f...)})
+	}
+	few := nrs
+	if len(few) > 600 {
+		few = few[:600] // every table number lies below 600; the full set is covered by family 0
+	}
+	for i, b := range bs {
+		tag := ""
+		if i < len(bs)-1 {
+			tag = "after-later-build/"
+			fp := b.f.SockFprog()
+			cur := unsafe.Slice((*syscall.SockFilter)(unsafe.Pointer(fp.Filter)), int(fp.Len))
+			same := len(cur) == len(b.snap)
+			for j := 0; same && j < len(cur); j++ {
+				same = cur[j] == b.snap[j]
+			}
+			if !same {
+				x.Failf("C01/after-later-build/filter-rewritten", "history %v: the filter returned by build %d (policy %d) no longer holds the instructions it was returned with after the later builds",
+					seq, i, seq[i])
+			}
+		}
+		c01checkFilter(x, info, alpha[seq[i]], b.f, few, arches[:4], tag)
+	}
+	x.Distinct(fmt.Sprint("history", seq))
+	x.Outcome(fmt.Sprint("history:", n))
 }
